@@ -15,7 +15,8 @@
 (***************************************************************************)
 EXTENDS Integers, Sequences, FiniteSets, TLC
 
-CONSTANTS Docs, MaxVer, MaxVal, MaxSteps
+CONSTANTS Docs, MaxVer, MaxVal, MaxSteps,
+          IndexOpsAnytime   \* FALSE: secondary indexes are created / dropped only while a single schema version exists
 
 NoVal == -1
 Fields == 1..MaxVer                 \* field k is added by version k
@@ -56,9 +57,9 @@ Patch(setActive) == /\ nver < MaxVer /\ active = nver
                     /\ UNCHANGED <<st, vals, ncommits, indexes>> /\ Log([E("patch") EXCEPT !.k = IF setActive THEN 1 ELSE 0])
 SetActive(k) == /\ k \in 1..nver /\ k # active /\ active' = k
                 /\ UNCHANGED <<st, vals, ncommits, nver, indexes>> /\ Log([E("setactive") EXCEPT !.k = k])
-IndexCreate(f) == /\ f \in Known /\ f \notin indexes /\ indexes' = indexes \cup {f}
+IndexCreate(f) == /\ f \in Known /\ f \notin indexes /\ (IndexOpsAnytime \/ nver = 1) /\ indexes' = indexes \cup {f}
                   /\ UNCHANGED <<st, vals, ncommits, nver, active>> /\ Log([E("indexcreate") EXCEPT !.f = f])
-IndexDrop(f) == /\ f \in indexes /\ indexes' = indexes \ {f}
+IndexDrop(f) == /\ f \in indexes /\ (IndexOpsAnytime \/ nver = 1) /\ indexes' = indexes \ {f}
                 /\ UNCHANGED <<st, vals, ncommits, nver, active>> /\ Log([E("indexdrop") EXCEPT !.f = f])
 Restart == /\ UNCHANGED <<st, vals, ncommits, nver, active, indexes>> /\ Log(E("restart"))
 
